@@ -173,9 +173,8 @@ func (t *ConvTable) For(tag string) *ConvClause {
 		consistent := true
 		var rest []string
 		for _, l := range pa.Lits {
-			if strings.HasPrefix(l.Atom, tagAtomPrefix) {
-				x := strings.TrimSuffix(strings.TrimPrefix(l.Atom, tagAtomPrefix), `"`)
-				if l.Val != (x == tag) {
+			if rel, holds := litAbout(l, "dom.TagName($1)", tag); rel {
+				if !holds {
 					consistent = false
 				}
 				continue
@@ -225,11 +224,8 @@ func (t *ConvTable) PathsFor(tag string) []core.DecisionPath {
 		}
 		consistent := true
 		for _, l := range pa.Lits {
-			if strings.HasPrefix(l.Atom, tagAtomPrefix) {
-				x := strings.TrimSuffix(strings.TrimPrefix(l.Atom, tagAtomPrefix), `"`)
-				if l.Val != (x == tag) {
-					consistent = false
-				}
+			if rel, holds := litAbout(l, "dom.TagName($1)", tag); rel && !holds {
+				consistent = false
 			}
 		}
 		embed := false
